@@ -3,8 +3,10 @@
 * `programs()`  Hypothesis strategy: a program that is valid by construction (every reference picks a symbol that is
   already defined - in execution order - and has a type the context accepts), then at most one *fault* is applied
   (definition moved later, use moved earlier, duplicate, builtin name, reference retargeted to another / an undefined
-  name, definition dropped, act line referring to a later phase, item moved to another phase).  The oracle never looks
-  at how the program was made.
+  name, definition dropped, act line referring to a later phase, item moved to another phase, a string that a
+  "strings only" context depends on gets a reference to a list / path).  The oracle never looks at how the program
+  was made.  Everything a case executes is harmless: the probe, and `printf '%s|' "TEXT" >> {OBS}/_shN` where TEXT
+  is made of the literal pieces below (no quote, $, backquote, backslash) and of symbol values built from them.
 * `matrix_cases()`  every (syntactic context, defined type, chain) cell.
 * `scope_cases()`  definition phase x use phase x order inside a phase x file order of the phases; duplicates;
   builtin names.
@@ -248,6 +250,8 @@ def _ctx_table():
     c['symref-stdin'] = lambda x: setup(pg, {'k': 'run', 'p': dict(symref('PG'), **{'in': {'ref': x, 't': None}})})
     c['symref-stdin-str'] = lambda x: setup(pg, {'k': 'run', 'p': dict(symref('PG'), **{'in': ts_str('s', R(x))})})
     c['symref-tt'] = lambda x: setup(pg, {'k': 'run', 'p': dict(symref('PG'), t=_ref(x))})
+    c['act-file-actor-arg'] = lambda x: ([], 'setup', dict(_probe('act', [S(R(x)), S('z')]), actor='file'))
+    c['act-file-actor-frag'] = lambda x: ([], 'setup', dict(_probe('act', [S('a', R(x), q='s')]), actor='file'))
     c['act-symref-arg'] = lambda x: ([pg], 'setup', symref('PG', S(R(x)), S('z')))
     c['fm-run-prog'] = lambda x: setup(_def('file-matcher', 'Z', {'c': 'run', 'p': symref(x)}))
     c['fm-run-arg'] = lambda x: setup(_def('file-matcher', 'Z', {'c': 'run', 'p': _probe('q1', [S('a', R(x), q='s')])}))
@@ -258,8 +262,9 @@ CONTEXTS = _ctx_table()
 CHAINS = ['0', 's1', 's2', 't1', 't2', 'm1', 'm2']  # m: strings with two references, the second one leads to X0
 
 
-def matrix_case(ctx, t, chain):
-    """def X0 of type t; chain of wrappers; context uses the last one."""
+def matrix_case(ctx, t, chain, late=False):
+    """def X0 of type t; chain of wrappers; context uses the last one.  late: the context is put into [cleanup]
+    (the definitions stay in [setup]) and the phases are written in reverse order."""
     items = {p: [] for p in ITEM_PHASES}
     if chain[0] == 'm':
         items['setup'].append(_def('string', 'S0', S('s')))
@@ -277,6 +282,12 @@ def matrix_case(ctx, t, chain):
                 items['setup'].append(_def(t, name, same_type_wrapper(t, last)))
             last = name
     ctx_items, phase, act = CONTEXTS[ctx](last)
+    if late:
+        if phase != 'setup' or act is not None or any(it['k'] == 'stdin' for it in ctx_items):
+            return None
+        items['cleanup'].extend(ctx_items)
+        return {'order': CANONICAL_ORDER[::-1], 'act': None, 'items': items,
+                'tag': 'matrix-late/%s/%s/%s' % (ctx, t, chain)}
     items[phase].extend(ctx_items)
     return {'order': CANONICAL_ORDER, 'act': act, 'items': items, 'tag': 'matrix/%s/%s/%s' % (ctx, t, chain)}
 
@@ -288,6 +299,10 @@ def matrix_cases(tier):
                 if chain[0] in 'sm' and t not in DATA_TYPES:
                     continue  # a string cannot be built from a logic value: that is cell (str-soft, t) itself
                 yield matrix_case(ctx, t, chain)
+                if tier == 'thorough':
+                    c = matrix_case(ctx, t, chain, late=True)
+                    if c is not None:
+                        yield c
 
 
 # ------------------------------------------------------------------------------------------------
@@ -308,14 +323,16 @@ def scope_cases(tier):
         for use_phase in EXEC_ORDER:
             same = def_phase == use_phase
             for def_first in ([True, False] if same else [True]):
-                for use_kind in (['file', 'def'] if use_phase != 'act' else ['act']):
+                for use_kind in (['file', 'def'] if use_phase != 'act' else ['act', 'act-file']):
                     for order in orders:
                         n += 1
                         items = {p: [] for p in ITEM_PHASES}
                         d = _def('string', 'X', S('v%d' % (n % 7)))
                         act = None
-                        if use_kind == 'act':
+                        if use_kind in ('act', 'act-file'):
                             act = _probe('act', [S('a', R('X'))])
+                            if use_kind == 'act-file':
+                                act['actor'] = 'file'
                             use = None
                         elif use_kind == 'file':
                             use = _show('X')
@@ -415,7 +432,7 @@ def _g_str(draw, env, types=DATA_TYPES, lits=LIT, max_frags=3, p_ref=0.55, pure=
            rich=False):
     """rich: the position takes a RICH-STRING and is the last thing of its line: `:> text` and here-documents too"""
     form = draw(st.integers(0, 9)) if rich else 9
-    if form <= 1:
+    if form <= 0:
         # here-document: 1-3 lines
         frags = []
         used = []
@@ -440,7 +457,7 @@ def _g_str(draw, env, types=DATA_TYPES, lits=LIT, max_frags=3, p_ref=0.55, pure=
             used.append(x)
         else:
             frags.append(draw(st.sampled_from(lits)))
-    if form <= 3:
+    if form <= 2:
         if draw(st.booleans()):
             frags.insert(draw(st.integers(0, len(frags))), draw(st.sampled_from([' # ', ' -x ', '  '])))
         return {'q': 't', 'f': frags}, used
@@ -767,6 +784,8 @@ def programs(draw):
         p, _u = _g_program(draw, env, 0, allow_extras=False)
         if p['c'] == 'probe':
             p['o'] = 'act'
+            if draw(st.integers(0, 3)) == 0:
+                p['actor'] = 'file'  # [conf] actor = file % python: FILE [PROGRAM-ARGUMENT]...
         if p['a'] and p['a'][-1]['q'] == 'd':
             # the lines of [act] belong to the actor (empty lines ...): a here-document there is C10's matter
             p['a'][-1] = {'q': 't', 'f': [f for f in p['a'][-1]['f'] if f != '\n']}
